@@ -294,7 +294,8 @@ def run(rep):
                 terms.append(case_term(counting, chunks, r[0], r[1]))
                 cases.append({"stack": name, "chunks": [c.hex() for c in chunks], "got_data": r[0].hex(),
                               "got_replies": r[1].hex(), "exc": r[2], "grammar": False})
-    bad, log = common.eval_cases(rep.workdir, "cases_c15", HEADER, terms, "chk")
+    bad, log = common.eval_cases(rep.workdir, "cases_c15", HEADER, terms, "chk",
+                                 case_type="bool * list bytes * bytes * bytes")
     rep.coverage["correspondence"] = {"suite": "telnet-neg", "cases": len(terms), "distribution": dist,
                                       "model_disagreements": None if bad is None else len(bad),
                                       "oracle_failures": len(oracle_fail)}
